@@ -3223,6 +3223,28 @@ def add_mexpr_to_qfr_over_var(
 ParsedXPathExpr = ImmutableList[ImmutableList[Pair[str, int]]]
 
 
+ISLA_KEYWORDS = frozenset(
+    [
+        "const",
+        "forall",
+        "exists",
+        "int",
+        "in",
+        "and",
+        "or",
+        "not",
+        "xor",
+        "implies",
+        "iff",
+        "true",
+        "false",
+        "div",
+        "mod",
+        "abs",
+    ]
+)
+
+
 class ISLaEmitter(IslaLanguageListener.IslaLanguageListener):
     def __init__(
         self,
@@ -3277,8 +3299,13 @@ class ISLaEmitter(IslaLanguageListener.IslaLanguageListener):
         assert nonterminal[-1] == ">"
         assert len(nonterminal) > 2
 
+        # The name must neither clash with the top-level constant (`<start>` would
+        # otherwise become a variable `start`) nor with a keyword (e.g., `<int>`).
         fresh_var = fresh_bound_variable(
-            self.used_variables | self.vars_for_free_nonterminals,
+            self.used_variables
+            | self.vars_for_free_nonterminals
+            | {self.constant.name}
+            | ISLA_KEYWORDS,
             BoundVariable(nonterminal[1:-1], nonterminal),
             add=False,
         )
